@@ -655,6 +655,15 @@ package tree
 //@   trusted recursive insertion into a tree built by the tree constructors; result not specified; cache updates are immutable (only cache.NewUpdate writes their fields)
 //@   ensures updates_are_immutable: unchanged(cache.Update.path) && unchanged(cache.Update.value) && unchanged(cache.Update.priority) && unchanged(cache.Update.owner)
 
+// C10 (and C08): the JSON rendering writes the members of the active choice cases only, on key levels and in plain
+// containers, as the XML and the proto rendering do: the members walked are what filterActiveChoiceCaseChilds returns
+//@ func (*sharedEntryAttributes).toJsonInternal
+//@   props C10
+//@   nosafety only which children are rendered is claimed here
+//@   requires s != nil && s.leafVariants != nil && lvOK(s.leafVariants)
+//@   loop 0 invariant the_members_of_a_key_level_are_the_active_children [C10 C08]: $map == callres(filterActiveChoiceCaseChilds, 0)
+//@   loop 1 invariant the_members_of_a_container_are_the_active_children [C10 C08]: $map == callres(filterActiveChoiceCaseChilds, 1)
+
 //@ func (*sharedEntryAttributes).getRegularDeletes
 //@   props C01
 //@   requires s != nil && s.childs != nil && s.cacheMutex != nil && s.leafVariants != nil && lvOK(s.leafVariants)
